@@ -3,10 +3,13 @@ from __future__ import annotations
 
 from hypothesis import strategies as st
 
-from harness import model
+from harness import model, names, vclock
 
 EXC_NAMES = ["ValueError", "KeyError", "CustomError", "TimeoutError", "RuntimeError"]
 RARE_EXC: list = []  # extended by checks that can judge them (C02: an exception whose str() raises)
+# exception texts: some look like templates (repid formats its log lines with str.format over an "extra" dict; the text of an
+# exception is data and must never be interpreted)
+EXC_TEXT = st.one_of(st.text("abc xyz", max_size=6), st.sampled_from(["{}", "{0}", "{x}", "{a", "}", "%s", "%(x)s", '{"k": 1}']))
 EAGER_ACTIONS = ["ack", "nack", "reject", "reschedule", "retry", "force_retry"]
 
 json_leaf = st.one_of(st.none(), st.booleans(), st.integers(-1000, 1000), st.text("abcxyz é", max_size=5),
@@ -29,7 +32,7 @@ def outcome_unserializable():
 
 def outcome_raise():
     return st.fixed_dictionaries({"k": st.just("raise"), "exc": st.sampled_from(EXC_NAMES + RARE_EXC),
-                                 "text": st.text("abc xyz", max_size=6), "sleep": sleeps})
+                                 "text": EXC_TEXT, "sleep": sleeps})
 
 
 def outcome_timeout():
@@ -39,7 +42,7 @@ def outcome_timeout():
 
 
 def outcome_depfail():
-    return st.fixed_dictionaries({"k": st.just("depfail"), "exc": st.sampled_from(EXC_NAMES), "text": st.text("ab", max_size=4)})
+    return st.fixed_dictionaries({"k": st.just("depfail"), "exc": st.sampled_from(EXC_NAMES), "text": EXC_TEXT})
 
 
 def outcome_depeager():
@@ -52,7 +55,7 @@ def eager_program(with_sets: bool):
     steps = [cb]
     if with_sets:
         steps.append(st.tuples(st.just("result"), json_value).map(list))
-        steps.append(st.tuples(st.just("exception"), st.sampled_from(EXC_NAMES), st.text("abc", max_size=4)).map(list))
+        steps.append(st.tuples(st.just("exception"), st.sampled_from(EXC_NAMES), EXC_TEXT).map(list))
     return st.lists(st.one_of(*steps), max_size=4)
 
 
@@ -92,7 +95,7 @@ def job(draw, idx: int, actors: list, *, allow_eager=True, allow_timeout=True, a
                 opts.append(outcome_depeager())
     else:
         opts = [st.fixed_dictionaries({"k": st.just("ret"), "v": json_value}),
-                st.fixed_dictionaries({"k": st.just("raise"), "exc": st.sampled_from(EXC_NAMES), "text": st.text("ab", max_size=3)})]
+                st.fixed_dictionaries({"k": st.just("raise"), "exc": st.sampled_from(EXC_NAMES), "text": EXC_TEXT})]
     n = draw(st.integers(1, 4))
     att = [draw(st.one_of(*opts)) for _ in range(n - 1)]
     last_opts = opts[:2] + ([outcome_depfail()] if shape in ("dep", "dep2") else [])
@@ -153,11 +156,28 @@ def worker_case(draw, *, brokers=("mem",), max_jobs=5, converters=("basic", "pyd
         "worker": {"tasks_limit": draw(st.sampled_from(list(tasks_limits)))},
         "jobs": jobs,
     }
-    if draw(st.integers(0, 3)) == 0:
-        case["tz"] = draw(st.sampled_from(["EST5", "IST-5:30", "NZT-13"]))  # host time zone other than UTC
     if broker != "mem":
         case["lat"] = draw(st.lists(st.sampled_from([0.0, 0.0, 0.001, 0.002, 0.005]), max_size=30))
-    return finalize(case)
+    return finalize(host_dims(draw, case))
+
+
+def host_dims(draw, case: dict, *, reach_days: float = 3, rename: bool = True, prio: bool = True) -> dict:
+    """Dimensions of the host and of naming that every worker scenario has, whatever its generator was written for: the host time
+    zone (repid keeps naive local datetimes), the level the application gave the "repid" logger (at DEBUG every log line of the
+    library is formatted), message priorities, and legal but unusual queue / actor / message names."""
+    if "tz" not in case and draw(st.integers(0, 3)) == 0:
+        case["tz"] = draw(st.sampled_from(vclock.zones(reach_days)))
+    if draw(st.integers(0, 4)) == 0:
+        case["log"] = "DEBUG"
+    if prio:
+        for j in case["jobs"]:
+            if "priority" not in j and draw(st.integers(0, 3)) == 0:
+                j["priority"] = draw(st.sampled_from([0, 9]))  # LOW / HIGH
+    if rename and draw(st.integers(0, 3)) == 0:
+        # (the case is rewritten here, every later look-up goes through it)
+        case["actors"] = [dict(a) for a in case["actors"]]
+        names.rename_worker_case(case, draw(st.sampled_from(names.STYLES)))
+    return case
 
 
 def pickup_latency(broker: str) -> float:
